@@ -322,14 +322,14 @@ func driveCallerSchemas(c *driverCtx, prop string) error {
 				fields := []csField{{sp, sch, wrap}, {specs[0], `"long"`, ""}}
 				t, sj := csRecord(fields, fmt.Sprintf("R%d", n))
 				n++
-				for k := 0; k < c.pick(4, 25); k++ {
+				for k := 0; k < c.pick(4, 120); k++ {
 					emitCS(c, prop, fmt.Sprintf("%s|%s|%s|%s", prop, sp.class, shortSchema(sch), wrap), sj, t, csValue(c.rng, t, fields), true)
 				}
 			}
 		}
 	}
 	// random records of several fields
-	for i := 0; i < c.pick(150, 3000); i++ {
+	for i := 0; i < c.pick(150, 30000); i++ {
 		nf := 1 + c.rng.Intn(5)
 		fields := make([]csField, nf)
 		for j := range fields {
@@ -383,7 +383,7 @@ func driveC19(c *driverCtx) error {
 			for d := int64(math.MinInt32) + int64(c.rng.Intn(int(stride))); d <= math.MaxInt32; d += stride {
 				stored = append(stored, d)
 			}
-			for k := 0; k < c.pick(300, 20000); k++ {
+			for k := 0; k < c.pick(300, 100000); k++ {
 				stored = append(stored, int64(int32(c.rng.Uint32())))
 			}
 		} else {
@@ -395,7 +395,7 @@ func driveC19(c *driverCtx) error {
 			}
 			lim := int64(math.MaxInt64) / unit
 			stored = append(stored, 0, 1, -1, 999, 1000, 1001, -999, -1000, -1001, 1e6, -1e6, 1e9, -1e9, 86400e3, -86400e3, lim, -lim, lim-1, -lim+1)
-			for k := 0; k < c.pick(400, 30000); k++ {
+			for k := 0; k < c.pick(400, 150000); k++ {
 				v := int64(c.rng.Uint64()>>uint(c.rng.Intn(63))) % (lim + 1)
 				if c.rng.Intn(2) == 0 {
 					v = -v
@@ -414,7 +414,7 @@ func driveC19(c *driverCtx) error {
 			r.ExtractResourceBank().Close()
 		}
 		// write direction: times (exact multiples of the unit and arbitrary instants)
-		for k := 0; k < c.pick(400, 20000); k++ {
+		for k := 0; k < c.pick(400, 100000); k++ {
 			exact := k%2 == 0
 			t := genTimeFor(c.rng, sch, exact)
 			if t.IsZero() {
